@@ -930,7 +930,23 @@ func sortedHashes(m map[common.Hash]bool) []common.Hash {
 func (x *c19) directCommit(job *syncJob, sched *trie.Sync, crash bool) bool {
 	r := x.r
 	before := x.dst.LogLen()
+	if !crash && x.c.Chance("transient-write-error", 1, 3) {
+		// a transient disk error on one Put of the flush: Sync.Commit reports how far it got and
+		// the caller flushes again (what was not written must still be there)
+		x.dst.FailAfter = 1 + x.c.Intn("failing-put", 6)
+	}
 	n, err := sched.Commit(x.dst)
+	x.dst.FailAfter = 0
+	if err != nil {
+		r.Fault("disk.write-error-then-retry")
+		r.Logf("  Sync.Commit: write error after %d entries, flushing again", n)
+		if !x.checkDurable(x.dst, "after a flush that stopped at a write error") {
+			return false
+		}
+		var n2 int
+		n2, err = sched.Commit(x.dst)
+		n += n2
+	}
 	if err != nil {
 		r.Report("commit-error", "job %s: Sync.Commit: %v", job.name, err)
 		return false
